@@ -70,7 +70,7 @@ SER_ASSUME = COMMON_ASSUME + ['the independent portable/frozen codecs (harness/s
 
 prop('C05', 'pser', 'fault_enumeration',
      'rapid draws history-dependent bitmaps (spec x form, then 0-6 mutations / algebra steps; 0..300 chunks) x entry point {ReadFrom with a generated reader chunking incl. 1 byte at a time (one time in four with the 4-byte cookie passed separately, also via MustReadFrom), FromBuffer, FromUnsafeBytes, UnmarshalBinary, FromBase64} x receiver {fresh, reused built, reused zero-copy, copy-on-write on} x trailing garbage; '
-     'checks writer agreement, byte accounting, exact consumption, Equals, that the copying entry points do not keep the caller's bytes (they are overwritten afterwards), post-decode operation history vs model; then ENUMERATES writer failure offsets (every offset when the stream is <=4096 bytes, else section boundaries +-1 and 128 random) in two failure modes. '
+     'checks writer agreement, byte accounting, exact consumption, Equals, that the copying entry points do not keep the bytes of the caller (they are overwritten afterwards), post-decode operation history vs model; then ENUMERATES writer failure offsets (every offset when the stream is <=4096 bytes, else section boundaries +-1 and 128 random) in two failure modes. '
      'Non-trivial = >=1 chunk and (reused receiver or a non-trivial reader chunking); distinct = FNV-64 of (history, entry, chunking, receiver). The regression tests add the empty bitmap, 65536 chunks, and an exhaustive small-scope sweep of reused receivers (26 previous sizes x 4 growth histories x every stream size up to 2R+8 x 5 entry points).',
      T(4, 600, 16, 8000),
      'property-based round-trip testing + exhaustive writer-fault enumeration per generated stream',
